@@ -15,6 +15,8 @@ CRATES = {
     "core": {},
     "producer": {},
     "relayer": {},
+    "importer": {},
+    "consensus": {},
 }
 
 
@@ -66,6 +68,12 @@ PROPS["C35"] = {
         H("c35_total", [_CPC], "all u64 price/percentage, all u32 heights"),
         H("c35_worst_case_total", ["fuel_gas_price_algorithm::v1::AlgorithmV1::worst_case", "AlgorithmUpdaterV1::algorithm", _CPC],
           "all u64 prices, u16 percentages, u32 heights"),
+        H("c35_worst_case_components_fixed", ["fuel_gas_price_algorithm::v1::AlgorithmV1::worst_case", _CPC],
+          "prices (1000, 777), all percentages <= 24, all horizons <= 24"),
+        H("c35_worst_case_components_k10", ["fuel_gas_price_algorithm::v1::AlgorithmV1::worst_case", _CPC],
+          "prices < 2^10, percentages <= 24, horizon <= 24", tiers=("thorough",), timeout={"thorough": 7200}),
+        H("c35_worst_case_components_k20", ["fuel_gas_price_algorithm::v1::AlgorithmV1::worst_case", _CPC],
+          "prices < 2^20, percentages <= 24, horizon <= 24", tiers=("thorough",), timeout={"thorough": 7200}),
         H("c35_table_rows", [_CPC], "all 24x25 table cells, price 2^40"),
         H("c35_table_monotone_k16", [_CPC], "price < 2^16, pct <= 24, horizon < 24", tiers=("quick",), timeout={"quick": 900}),
         H("c35_table_monotone_k20", [_CPC], "price < 2^20, pct <= 24, horizon < 24", tiers=("thorough",), timeout={"thorough": 3600}),
@@ -153,5 +161,50 @@ PROPS["C29"] = {
         H("c29_sizer_step_b64", ["fuel_core_relayer::service::AdaptivePageSizer::update"], "any u64 page size", tiers=("thorough",), timeout={"thorough": 3600}),
         H("c29_pager_k4", [_PG + "EthSyncGap::page", _PG + "EthSyncPage::advance_and_resize", "AdaptivePageSizer::update"], "4 RPC calls, any outcomes"),
         H("c29_pager_k6", [_PG + "EthSyncGap::page", _PG + "EthSyncPage::advance_and_resize", "AdaptivePageSizer::update"], "6 RPC calls, any outcomes", tiers=("thorough",), timeout={"thorough": 3600}),
+    ],
+}
+
+PROPS["C08"] = {
+    "crate": "importer",
+    "level": "model_checking",
+    "explanation": "The admission decision the importer takes for every block before anything is committed "
+                   "(create_block_changes) is executed symbolically against a database whose answers are symbolic and "
+                   "compared with the rule in the statement, for every block height, database height and consensus kind.",
+    "bounds": "one import request; all u32 block heights and database heights; Genesis / PoA consensus; every answer "
+              "(value, none, error) of latest_block_height and store_new_block",
+    "outside": "_commit_result (block Merkle root comparison, commit of the change list, broadcast to subscribers), the "
+               "semaphore / task around it, store_new_block itself (storage maps), Consensus variants other than Genesis/PoA "
+               "(the enum is non_exhaustive and has none)",
+    "assumptions": ["the database port answers arbitrarily but consistently within one request"],
+    "harnesses": [
+        H("c08_admission", ["fuel_core_importer::importer::create_block_changes"], "all u32 heights, all port answers",
+          cuts=["BlockHeaderV1::recalculate_metadata -> no-op (sha256 of the header; the id is not read)",
+                "alloc::fmt::format -> empty string", "Backtrace::capture -> disabled", "RandomState::new -> fixed keys (the Changes map is only created and moved)"],
+          timeout={"quick": 1800, "thorough": 3600}),
+    ],
+}
+
+_C15_CUTS = ["ApplicationHeader::<GeneratedApplicationFieldsV1>::hash -> a value chosen symbolically by the harness (sha256; kani-compiler aborts on that code)",
+             "BlockHeader::validate_transactions -> a boolean chosen symbolically by the harness (fuel-merkle + sha256)",
+             "BlockHeaderV1::recalculate_metadata -> no-op (header id is not read)",
+             "alloc::fmt::format -> empty string", "Backtrace::capture -> disabled"]
+PROPS["C15"] = {
+    "crate": "consensus",
+    "level": "model_checking",
+    "explanation": "The real block verifier (block_verifier::Verifier::verify_block_fields -> poa::verifier::verify_block_fields, "
+                   "and the genesis branch) is executed symbolically on a block whose height, previous root, DA height, time and "
+                   "application hash are symbolic, against a database with a symbolic parent; acceptance is compared with the "
+                   "conjunction of the field rules.",
+    "bounds": "one block; all u32 heights, u64 DA heights and times; roots/hashes vary in two of their 32 bytes; every database "
+              "answer (value / error) for the parent root and parent header",
+    "outside": "the two hash equalities are decided only up to their cut (the application-header hash and the transaction root "
+               "are sha256 computations: their result is a symbolic value), PoA signature recovery (secp256k1 FFI), "
+               "collision-resistance claims (any change changes the block id), Block::try_from_executed",
+    "assumptions": ["the database port answers consistently within one verification"],
+    "harnesses": [
+        H("c15_poa_fields", ["fuel_core_poa::verifier::verify_block_fields", "fuel_core_consensus_module::block_verifier::Verifier::verify_block_fields"],
+          "all field values, all database answers", cuts=_C15_CUTS),
+        H("c15_genesis_fields", ["fuel_core_consensus_module::block_verifier::verify_genesis_block_fields", "Verifier::verify_block_fields"],
+          "all field values and configured genesis heights", cuts=_C15_CUTS),
     ],
 }
